@@ -45,10 +45,43 @@ def _rounded_taint(repo, f, e):
     return None
 
 
+def _append_loops(f):
+    return [n for n in f.node.body if isinstance(n, ast.For) and any(
+        isinstance(c, ast.Call) and call_name(c) == 'append' for c in ast.walk(n))]
+
+
+def _fold_tuples(e):
+    """(a,) + (b, c) -> (a, b, c)"""
+    if isinstance(e, ast.BinOp) and isinstance(e.op, ast.Add):
+        l, r = _fold_tuples(e.left), _fold_tuples(e.right)
+        if isinstance(l, ast.Tuple) and isinstance(r, ast.Tuple):
+            return ast.Tuple(elts=list(l.elts) + list(r.elts), ctx=ast.Load())
+    return e
+
+
 def run(ctx, div=True):
     ctx.group('R-PROF')
     repo = ctx.repo
     f = repo.fn(PROFILER, 'profile_table_for_join')
+    if not _append_loops(f):
+        # one row per attribute built by a comprehension and/or a per-column helper returning the cells:
+        # analyse the equivalent append loop (see normalise.py)
+        from ..normalise import normalise_function
+        from ..model import Repo
+
+        def tuple_helper(nm):
+            h = [n for n in f.module.tree.body if isinstance(n, ast.FunctionDef) and n.name == nm]
+            return bool(h) and any(isinstance(x, ast.Return) and isinstance(x.value, ast.Tuple) for x in ast.walk(h[0]))
+        src, done = normalise_function(f.module.tree, f.name, only=tuple_helper)
+        if src is not None:
+            srcs = dict(repo.sources)
+            srcs[PROFILER] = src
+            try:
+                repo = Repo(srcs)
+            except AnalysisError:
+                repo = ctx.repo
+            f = repo.fn(PROFILER, 'profile_table_for_join')
+            ctx.counts['R-PROF/normalised'] = len(done)
     view0 = view_of(f)
 
     class _V(object):
@@ -60,17 +93,21 @@ def run(ctx, div=True):
             return getattr(view0, a)
     view = _V()
     tbl = f.params[0]
-    loops = [n for n in f.node.body if isinstance(n, ast.For) and any(
-        isinstance(c, ast.Call) and call_name(c) == 'append' for c in ast.walk(n))]
+    loops = _append_loops(f)
     if len(loops) != 1:
         raise AnalysisError('%s: attribute loop not found' % f.where)
     lp = loops[0]
     attr = lp.target.id
     apps = [n for n in ast.walk(lp) if isinstance(n, ast.Expr) and isinstance(n.value, ast.Call) and call_name(n.value) == 'append']
-    if len(apps) != 1 or not isinstance(apps[0].value.args[0], ast.Tuple) or len(apps[0].value.args[0].elts) != 4:
+    if len(apps) != 1:
         raise AnalysisError('%s: expected one append of a 4-tuple per attribute' % f.where)
     ap = apps[0]
-    cells = ap.value.args[0].elts
+    row = ap.value.args[0]
+    if not isinstance(row, ast.Tuple):
+        row = _fold_tuples(view.expand(row, ap))
+    if not isinstance(row, ast.Tuple) or len(row.elts) != 4:
+        raise AnalysisError('%s: expected one append of a 4-tuple per attribute' % f.where)
+    cells = row.elts
     col = '%s[%s]' % (tbl, attr)
     # ---- counts
     uq_ref = 'len(%s.unique())' % col
@@ -110,6 +147,11 @@ def run(ctx, div=True):
                         from .common import subst_names
                         px = subst_names(cv.expand(main[0].value, main[0]), {p: a for p, a in b.items()})
                         px = view.expand(px, ap)
+            if isinstance(px, ast.IfExp):
+                # the helper inlined as `0.0 if num_rows == 0 else round(..)`: the guarded arm carries the value
+                arms = [a for a in (px.body, px.orelse) if any(isinstance(y, ast.Call) and call_name(y) == 'round' for y in ast.walk(a))]
+                if len(arms) == 1:
+                    px = arms[0]
             if isinstance(px, ast.Call) and call_name(px) == 'round' and len(px.args) == 2 and isinstance(px.args[1], ast.Constant) \
                     and px.args[1].value == 2:
                 try:
